@@ -98,7 +98,19 @@ def _delta_keywords(fn, call):
                                                                  and c.func.attr == "get" else None)
                 if isinstance(d, _a.Name):
                     dv = local_resolver(fn.node)(d)
+                    if not dv:
+                        # a module-level table
+                        dv = [st.value for st in fn.module.tree.body if isinstance(st, (_a.Assign, _a.AnnAssign)) and st.value is not None
+                              and any(isinstance(t, _a.Name) and t.id == d.id for t in (st.targets if isinstance(st, _a.Assign) else [st.target]))]
                     d = dv[0] if len(dv) == 1 else None
+                elif isinstance(d, _a.Attribute) and isinstance(d.value, _a.Name) and fn.cls is not None and \
+                        d.value.id in ("cls", "self", fn.cls.name):
+                    # a class-level table (bound once in the class body, never re-bound through self. / cls. in the module)
+                    dv = [st.value for st in fn.cls.node.body if isinstance(st, (_a.Assign, _a.AnnAssign)) and st.value is not None
+                          and any(isinstance(t, _a.Name) and t.id == d.attr for t in (st.targets if isinstance(st, _a.Assign) else [st.target]))]
+                    rebound = any(isinstance(x, _a.Attribute) and x.attr == d.attr and isinstance(x.ctx, (_a.Store, _a.Del))
+                                  for x in _a.walk(fn.module.tree))
+                    d = dv[0] if len(dv) == 1 and not rebound else None
                 if isinstance(d, _a.Dict) and all(isinstance(x, _a.Constant) and isinstance(x.value, str) for x in d.values):
                     names |= {x.value for x in d.values}
                     got = True
@@ -192,14 +204,23 @@ def run(ctx: Ctx):
                        f"relativedelta({', '.join(absolute or unknown)}=...) SETS that calendar field instead of adding to it: the result depends on "
                        "the day of month / year of the start date, so a shifted project gets a different frame",
                        key=key_of("R14.2", fn, None, norm(c)[:60]))
-    ctx.floor("R14.2", 8)
+    # every unit of a header duration is covered by some call (the calls may share one keyword table)
+    seen_kw = set()
+    for fn in ctx.repo.all_funcs():
+        for c in own_nodes(fn):
+            if isinstance(c, _a.Call) and norm(c.func).split(".")[-1] == "relativedelta":
+                seen_kw |= (_delta_keywords(fn, c) or set())
+    if not {"minutes", "hours", "days", "weeks", "months", "years"} <= seen_kw:
+        raise Inconclusive(f"relativedelta keyword census: only {sorted(seen_kw)} found, the six duration units expected")
+    ctx.floor("R14.2", 2)
     # ---------------------------------------------------------------- R14.3 the project end as an anchor (known finding F55)
     # the declared end is start + <header duration>; with a duration in months / years that sum does not move by whole weeks when the
     # start does.  It is harmless while the end only sizes the horizon, but backward-scheduled tasks without a deadline of their own
     # are anchored AT it.
     mb = ctx.repo.func("ModelBuilder.build")
-    month_frames = [c for c in own_nodes(mb) if isinstance(c, _a.Call) and norm(c.func).split(".")[-1] == "relativedelta"
-                    and any(k.arg in ("months", "years") for k in c.keywords)]
+    month_frames = [c for f_ in [mb] + sorted((g for g in ctx.cg.reach([mb]) if g.cls is mb.cls and g is not mb), key=lambda g: g.key)
+                    for c in own_nodes(f_) if isinstance(c, _a.Call) and norm(c.func).split(".")[-1] == "relativedelta"
+                    and ({"months", "years"} & (_delta_keywords(f_, c) or set()))]
     ts = ctx.repo.func("TaskScenario.schedule")
     anchors = [n for n in own_nodes(ts) if isinstance(n, _a.Assign) and norm(n.targets[0]) == "latest_end"
                and ("declaredEnd" in norm(n.value) or "project['end']" in norm(n.value).replace('"', "'"))]
